@@ -201,7 +201,8 @@ def nodupNat : List Nat → Bool
   | x :: xs => !xs.contains x && nodupNat xs
 
 /-- node ids distinct, edge ids distinct, every edge has two live ends, every node's edge list has
-    no repetition and lists exactly the live edges that have the node as an end -/
+    no repetition and lists exactly the live edges that have the node as an end; all object numbers
+    are below the allocation counter -/
 def wfb (t : HTree) : Bool :=
   nodupNat (t.nodes.map (·.id)) && nodupNat (t.edges.map (·.id)) &&
   t.edges.all (fun e => match e.e1, e.e2 with
@@ -211,7 +212,8 @@ def wfb (t : HTree) : Bool :=
     n.edges.all (fun i => match t.edge? i with
       | some e => e.e1 == some n.id || e.e2 == some n.id
       | none => false) &&
-    t.edges.all (fun e => !(e.e1 == some n.id || e.e2 == some n.id) || n.edges.contains e.id))
+    t.edges.all (fun e => !(e.e1 == some n.id || e.e2 == some n.id) || n.edges.contains e.id)) &&
+  t.nodes.all (fun n => n.id < t.next) && t.edges.all (fun e => e.id < t.next)
 
 /-- degree as the C++ reads it: `edges.size()` -/
 def HTree.degree (t : HTree) (i : Nat) : Nat :=
